@@ -195,6 +195,9 @@ def canon_scalar(x, dt_kind):
     if isinstance(x, (float, np.floating)):
         if np.isnan(x):
             return None
+        if np.isinf(x):
+            # an infinite result is a value of its own (never equal to a finite expectation or to null)
+            return Fraction(10) ** 400 if x > 0 else -(Fraction(10) ** 400)
         return Fraction(float(x))
     raise TypeError(f"cannot canonicalise {x!r} ({type(x)})")
 
